@@ -356,6 +356,12 @@ GStall ==
                   IN IF serving # {} /\ pick # 1 THEN serving ELSE all) :
          Step([In0 EXCEPT !.op = "stall", !.s = s], StallFx(Cur, s))
 
+\* the caller of a pending call stops reading (its callee's next YIELD is then held back, C07)
+GStallCaller ==
+  LET cs == {c[1] : c \in {cc \in DOMAIN calls : cc[1] \in J /\ ~sess[cc[1]].stalled /\ calls[cc].callee \in J /\ calls[cc].callee # cc[1]}} IN
+  IF cs = {} THEN GStall
+  ELSE \E s \in R(cs) : Step([In0 EXCEPT !.op = "stall", !.s = s], StallFx(Cur, s))
+
 GResume ==
   \E s \in {x \in Joined(Cur) : sess[x].stalled} :
     Step([In0 EXCEPT !.op = "resume", !.s = s], ResumeFx(Cur, s))
@@ -572,6 +578,7 @@ GenNext ==
        [] kind = "bmix"   -> GBurstMix
        [] kind = "bslow"  -> GBurstSlow
        [] kind = "stall"  -> GStall
+       [] kind = "stallc" -> GStallCaller
        [] kind = "resume" -> GResume
        [] kind = "msess"  -> GMetaSession
        [] kind = "mreg"   -> GMetaReg
